@@ -92,13 +92,15 @@ def gen_cases(tier, seed, behs):
                 ops.append({"op": "hb", "byte": rng.randrange(256)})
         cases.append({"nid": nid, "ops": ops, "src": "random"})
     # waits: with feeder (parked waiter), without (small timeout)
-    for _ in range(6 if tier == "quick" else 60):
+    for _ in range(8 if tier == "quick" else 60):
         ops = []
         for _ in range(4):
             kind = rng.choice(["hb", "boot"])
             feed = rng.choice([[], [5], [0], [127, 0], [4, 5, 0], [133], [128]])
             if kind == "hb":
                 feed = feed[:1]
+            if rng.random() < 0.6:      # a heartbeat / boot-up handled while nobody is waiting
+                ops.append({"op": "hb", "byte": rng.choice([0, 5, 127, 4])})
             ops.append({"op": "wait", "kind": kind, "feed": feed, "timeout": 0.15 if not feed or (kind == "boot" and 0 not in [f % 128 for f in feed]) else 5})
             ops.append({"op": "cmd", "who": "master", "code": rng.choice([1, 2, 128])})
         cases.append({"nid": 5, "ops": ops, "src": "wait"})
